@@ -170,7 +170,7 @@ class HostileSFTP(RS.RefSFTP):
     def __init__(self, loop, listing, nested):
         RS.RefSFTP.__init__(self, loop, extensions=[])
         self.kinds = {}
-        self.dirs[b'/dir'] = [(n, k, None) for n, k in listing]
+        self.dirs[b'/dir'] = [(n, k.lower(), None) for n, k in listing]
         self.nested = nested
         for n, k in listing:
             self.kinds[n] = k
@@ -189,10 +189,14 @@ class HostileSFTP(RS.RefSFTP):
     def answer(self, idx=0, variant='ok', **kw):
         req = self.pending[idx]
         t, f = req.type, req.f
+        if t == FXP['STAT'] and self.kind_of(f['path']) == 'L':
+            req.type = t = FXP['LSTAT']     # answers with the link's own attributes whatever was asked
         if t in (FXP['STAT'], FXP['LSTAT']) and f['path'] not in self.files and f['path'] not in self.dirs:
             k = self.kind_of(f['path'])
             if k == 'l' and t == FXP['STAT']:
                 k = 'f'
+            if k == 'L':            # claims to be a link even when the client asks for what the link names
+                k = 'l'
             if k == 'd':
                 self.dirs.setdefault(f['path'], [(n, 'f', None) for n in self.nested])
             elif k == 'l':
@@ -242,6 +246,10 @@ def sftp_run(listing, nested, api):
                 coro = sftp.mget(b'/dir/*', dest.encode(), recurse=True, preserve=True, error_handler=lambda exc: None)
             elif api == 'get-follow':
                 coro = sftp.get(b'/dir', dest.encode(), recurse=True, follow_symlinks=True)
+            elif api == 'get-follow-preserve':
+                coro = sftp.get(b'/dir', dest.encode(), recurse=True, follow_symlinks=True, preserve=True)
+            elif api == 'mget-follow-preserve':
+                coro = sftp.mget(b'/dir/*', dest.encode(), recurse=True, follow_symlinks=True, preserve=True)
             else:
                 coro = sftp.mget(b'/dir/*', dest.encode(), recurse=True)
             t = loop.create_task(coro)
@@ -285,6 +293,7 @@ def glob_run(sub_a, sub_b, patterns, api_kw):
     viol = []
     try:
         srv = RS.RefSFTP(loop, extensions=[])
+        srv.trailing_slash_ok = True
         srv.dirs[b'/dir'] = [(b'a', 'd', None), (b'b', 'd', None)]
         for d, (name, kind) in ((b'/dir/a', sub_a), (b'/dir/b', sub_b)):
             srv.dirs[d] = [(name, kind, None)]
@@ -306,7 +315,9 @@ def glob_run(sub_a, sub_b, patterns, api_kw):
         sftp = start.result()
         mon = fsmon.start(dest)
         try:
-            t = loop.create_task(sftp.mget(patterns, dest.encode(), recurse=True, **api_kw))
+            api_kw = dict(api_kw)
+            fn = sftp.get if api_kw.pop('_get', False) else sftp.mget
+            t = loop.create_task(fn(patterns, dest.encode(), recurse=True, **api_kw))
             steps = 0
             while True:
                 loop.quiesce()
@@ -319,6 +330,8 @@ def glob_run(sub_a, sub_b, patterns, api_kw):
             if not t.done():
                 viol.append(('hang', 'mget never finished'))
             else:
+                if os.environ.get('VERIF_DEBUG'):
+                    print('   result:', repr(t.exception()))
                 t.exception()
         finally:
             fsmon.stop()
@@ -342,7 +355,8 @@ def glob_worker(job):
     try:
         for sub_a, sub_b, patterns, kwname in job:
             kw = {'plain': {}, 'preserve': dict(preserve=True), 'errhandler': dict(error_handler=lambda exc: None),
-                  'follow': dict(follow_symlinks=True)}[kwname]
+                  'follow': dict(follow_symlinks=True), 'get-list': dict(_get=True),
+                  'get-list-preserve': dict(_get=True, preserve=True)}[kwname]
             viol = glob_run(sub_a, sub_b, patterns, kw)
             acc.add(core.digest(('glob', sub_a, sub_b, tuple(patterns), kwname)), transitions=4,
                     sample={'remote': {'/dir/a': [sub_a[0].decode('latin1'), sub_a[1]], '/dir/b': [sub_b[0].decode('latin1'), sub_b[1]]},
@@ -367,6 +381,12 @@ def glob_jobs():
                                  [b'/dir/a/n', b'/dir/a/n'], [b'/dir/a/*', b'/dir/a/n'], [b'/dir/**/n']):
                     for kwname in ('plain', 'preserve', 'errhandler', 'follow'):
                         cases.append(((b'n', ka), (name_b, kb), patterns, kwname))
+            # a source named with a trailing slash (or '/.') is copied INTO the destination: its entries meet what
+            # an earlier source left there
+            for patterns in ([b'/dir/a/n', b'/dir/b/'], [b'/dir/a/n', b'/dir/b/.'], [b'/dir/a/*', b'/dir/b/'], [b'/dir/b/', b'/dir/a/n'],
+                             [b'/dir/a/', b'/dir/b/'], [b'/dir/a/.', b'/dir/b/.']):
+                for kwname in ('plain', 'preserve', 'get-list', 'get-list-preserve'):
+                    cases.append(((b'n', ka), (b'n', kb), patterns, kwname))
     return [cases[i::32] for i in range(32)]
 
 
@@ -402,7 +422,11 @@ def run(tier, seed):
     acc = core.pmap(scp_worker, core.rotate([seqs[i::64] for i in range(64)], seed))
     ents = [(n, k) for n in NAMES for k in ('f', 'd', 'l')]
     jobs = []
-    for api in ('get', 'mget', 'get-follow', 'get-preserve', 'mget-preserve', 'get-errhandler', 'mget-errhandler'):
+    for api in ('get-follow', 'get-follow-preserve', 'mget-follow-preserve', 'get-preserve'):
+        for n in (b'a', b'..', b'a/b'):
+            jobs.append((((n, 'L'),), (b'inner',), api))
+            jobs.append((((b'sub', 'd'),), (n,), api))
+    for api in ('get', 'mget', 'get-follow', 'get-preserve', 'mget-preserve', 'get-errhandler', 'mget-errhandler', 'get-follow-preserve'):
         for e in ents:
             for nested in ((b'inner',), (b'../z',), (b'/abs/z',)):
                 if e[1] != 'd' and nested != (b'inner',):
